@@ -435,6 +435,8 @@ pub enum AuxOp {
     /// Send an application datagram of this size (clamped by the harness to what send accepts is NOT
     /// done: oversize sends exercise TooLarge)
     Datagram { size: u16, drop: bool },
+    /// Send a datagram of max_size() + delta bytes (delta in -2..=2), evaluated when executed
+    DatagramRel { delta: i8, drop: bool },
     Close { code: u32, reason_len: u8 },
     /// local_address_changed notification (client)
     LocalAddrChanged,
@@ -451,6 +453,9 @@ pub struct TimedOp {
 pub struct SideLoad {
     pub streams: Vec<StreamSpec>,
     pub ops: Vec<TimedOp>,
+    /// Drain received datagrams only on every n-th DatagramReceived event (0/1 = always)
+    #[serde(default)]
+    pub dgram_recv_every: u8,
 }
 
 pub fn arb_chunk() -> impl Strategy<Value = u32> {
